@@ -21,7 +21,8 @@ var convFormats = []string{"srt", "ssa", "ass", "stl", "ttml", "vtt", "ts"}
 var convDst = []string{"srt", "ssa", "ass", "stl", "ttml", "vtt"}
 
 // plain words keep the text representable in every destination
-var plainWords = []string{"Hello", "world", "How are you", "fine", "42", "Yes", "No", "subtitle", "line two", "ok"}
+// the last ones spell an entity: they are plain text, to be written escaped and read back as they are
+var plainWords = []string{"Hello", "world", "How are you", "fine", "42", "Yes", "No", "subtitle", "line two", "ok", "a & b", "1 < 2", "&lt;", "x&nbsp;y", "&amp;"}
 
 // mergeArgCues: the second document of a merge: two or three plain cues; for some seeds it lies far after the first
 // document and stores its own cues latest first (a file need not be chronological)
